@@ -32,12 +32,12 @@ static std::string g_tools;
 void h_init_parent() { const char *t = getenv("VERIF_TOOLS_DIR"); if (!t) { fprintf(stderr, "c20: VERIF_TOOLS_DIR is not set\n"); exit(2); } g_tools = t; setenv("HWLOC_DONT_ADD_VERSION_INFO", "1", 1); setenv("HWLOC_HIDE_ERRORS", "2", 1); }
 
 struct Run { int rc = -1; int sig = 0; bool timeout = false; std::string out, err; };
-static Run run_tool(Case &c, const std::string &tool, const std::vector<std::string> &args) {
+static Run run_tool(Case &c, const std::string &tool, const std::vector<std::string> &args, const std::string *stdin_text = nullptr) {
   Run r; int po[2], pe[2]; if (pipe(po) || pipe(pe)) c.fail("harness", "pipe failed");
   std::string cmdline = tool; for (auto &a : args) cmdline += " " + qstr(a.c_str()); c.attempt(cmdline);
   pid_t pid = fork(); if (pid < 0) c.fail("harness", "fork failed");
   if (pid == 0) {
-    int nul = open("/dev/null", O_RDONLY); dup2(nul, 0); dup2(po[1], 1); dup2(pe[1], 2); close(po[0]); close(pe[0]);
+    int nul = open("/dev/null", O_RDONLY); if (stdin_text) { std::string ip = std::string(h_workdir()) + strf("/c20.stdin.%d", (int)getpid()); int wf = open(ip.c_str(), O_WRONLY | O_CREAT | O_TRUNC, 0600); if (wf >= 0) { if (write(wf, stdin_text->data(), stdin_text->size()) < 0) _exit(126); close(wf); } nul = open(ip.c_str(), O_RDONLY); unlink(ip.c_str()); } dup2(nul, 0); dup2(po[1], 1); dup2(pe[1], 2); close(po[0]); close(pe[0]);
     setenv("ASAN_OPTIONS", "exitcode=42:detect_leaks=0:abort_on_error=0:allocator_may_return_null=1:symbolize=1:external_symbolizer_path=/usr/bin/llvm-symbolizer-14", 1);
     setenv("UBSAN_OPTIONS", "print_stacktrace=1:halt_on_error=1:exitcode=43:external_symbolizer_path=/usr/bin/llvm-symbolizer-14", 1);
     std::vector<char *> av; std::string path = g_tools + "/" + tool; av.push_back((char *)path.c_str()); for (auto &a : args) av.push_back((char *)a.c_str()); av.push_back(NULL);
@@ -158,7 +158,7 @@ static void scenario_calc(Case &c, Draw &d) {
     for (hwloc_obj_t n = NULL; (n = hwloc_get_next_obj_by_type(t, HWLOC_OBJ_NUMANODE, n));) if (hwloc_bitmap_iszero(n->cpuset)) { c.cls("calc:cpuless-numa-node"); break; } }
   bool nodesets = d.chance(1, 5); int cif = d.chance(1, 3) ? d.range(0, 2) : 0; int cof = d.chance(1, 2) ? d.range(0, 2) : 0;
   hwloc_const_bitmap_t universe = nodesets ? hwloc_topology_get_topology_nodeset(t) : hwloc_topology_get_topology_cpuset(t);
-  hwloc_bitmap_t E = hwloc_bitmap_alloc(); std::vector<std::string> toks; bool anyhier = false; size_t ntok = c.ops.empty() ? 1 : c.ops.size();
+  hwloc_bitmap_t E = hwloc_bitmap_alloc(); std::vector<std::string> toks, plain_toks; std::vector<hwloc_bitmap_t> plain_sets; bool anyhier = false; size_t ntok = c.ops.empty() ? 1 : c.ops.size();
   for (size_t i = 0; i < ntok; i++) {
     Draw od = c.ops.empty() ? d : c.ops[i]; hwloc_bitmap_t cs = hwloc_bitmap_alloc(), ns = hwloc_bitmap_alloc(); std::string text; int kind = od.range(0, 9);
     if (kind == 0) { text = od.chance(1, 2) ? "all" : "root"; hwloc_bitmap_copy(cs, hwloc_get_root_obj(t)->cpuset); hwloc_bitmap_copy(ns, hwloc_get_root_obj(t)->nodeset); }
@@ -168,7 +168,7 @@ static void scenario_calc(Case &c, Draw &d) {
     static const char pfx[] = {0, 0, 0, '~', 'x', '^'}; char p = i == 0 && od.chance(3, 4) ? 0 : pfx[od.range(0, 5)];
     hwloc_const_bitmap_t s = nodesets ? ns : cs;
     if (p == '~') hwloc_bitmap_andnot(E, E, s); else if (p == 'x') hwloc_bitmap_and(E, E, s); else if (p == '^') hwloc_bitmap_xor(E, E, s); else hwloc_bitmap_or(E, E, s);
-    toks.push_back(p ? std::string(1, p) + text : text); hwloc_bitmap_free(cs); hwloc_bitmap_free(ns);
+    toks.push_back(p ? std::string(1, p) + text : text); plain_toks.push_back(text); plain_sets.push_back(hwloc_bitmap_dup(s)); hwloc_bitmap_free(cs); hwloc_bitmap_free(ns);
   }
   std::vector<std::string> base = in.args; if (nodesets) base.push_back("-n"); if (cif) { base.push_back("--cif"); base.push_back(fmt_name[cif]); }
   std::vector<std::string> args = base; bool taskset_opt = cof == 2 && d.chance(1, 2); if (taskset_opt) args.push_back("--taskset"); else if (cof) { args.push_back(d.chance(1, 2) ? "--cof" : "--cpuset-output-format"); args.push_back(fmt_name[cof]); }
@@ -181,6 +181,13 @@ static void scenario_calc(Case &c, Draw &d) {
   CHECK(c, hwloc_bitmap_isequal(got, E), "calc_result", "hwloc-calc printed %s = %s, the documented operators give %s", line.substr(0, 200).c_str(), bstr(got).c_str(), bstr(E).c_str());
   c.cls(strf("calc:tokens=%zu", toks.size()).c_str()); if (anyhier) c.cls("calc:hierarchical"); if (nodesets) c.cls("calc:nodesets"); if (cof) c.cls("calc:output-format"); if (cif) c.cls("calc:input-format");
   bool nt = toks.size() >= 2 || anyhier || cof != 0;
+  // locations read from the standard input, one computation per line: every line is computed on its own, like one invocation per line
+  if (d.chance(1, 5)) { std::string in_text; for (auto &x : plain_toks) in_text += x + "\n"; std::vector<std::string> a = base; a.push_back("-q"); /* (without -q the tool announces on stdout that it waits for locations) */ if (cof) { a.push_back("--cof"); a.push_back(fmt_name[cof]); } Run q = run_tool(c, "hwloc-calc", a, &in_text); CHECK(c, q.rc == 0, "calc_stdin", "hwloc-calc reading %zu lines from stdin exited with %d (stderr: %s)", plain_toks.size(), q.rc, q.err.substr(0, 300).c_str());
+    std::vector<std::string> lines; { size_t p0 = 0; while (p0 < q.out.size()) { size_t e = q.out.find('\n', p0); if (e == std::string::npos) e = q.out.size(); lines.push_back(q.out.substr(p0, e - p0)); p0 = e + 1; } }
+    CHECK(c, lines.size() == plain_toks.size(), "calc_stdin", "%zu input lines, %zu output lines", plain_toks.size(), lines.size());
+    for (size_t i = 0; i < lines.size(); i++) { hwloc_bitmap_t g = hwloc_bitmap_alloc(); CHECK(c, parse_set(cof, lines[i], g) && hwloc_bitmap_isequal(g, plain_sets[i]), "calc_stdin", "line %zu of the standard input (%s) gives [%s], the location alone denotes %s", i + 1, plain_toks[i].c_str(), lines[i].substr(0, 120).c_str(), bstr(plain_sets[i]).c_str()); hwloc_bitmap_free(g); }
+    c.cls("calc:stdin-lines"); nt = true; }
+  for (auto b : plain_sets) hwloc_bitmap_free(b);
   // metamorphic relations
   int rel = d.range(0, 5);
   if (rel == 1) {   // the three formats denote one set
